@@ -197,6 +197,11 @@ class Lexer(object):
         self.valid_prev_token = None
         self.cur_token = None
         self.cur_token_real = None
+        # whether a line terminator (also one inside a multi-line
+        # comment) was seen since the last real token, and whether one
+        # precedes the current real token (ECMA-262 7.4, 7.9.1).
+        self._lt_pending = False
+        self.cur_token_lt = False
         self.next_tokens = []
         self.token_stack = [[None, []]]
         self.newline_idx = [0]
@@ -252,8 +257,10 @@ class Lexer(object):
         self.next_tokens = []
         # do the dance to ensure the valid previous tokens are tracked.
         valid_prev_token = self.valid_prev_token
+        cur_token_lt = self.cur_token_lt
         token = self.token()
         self.valid_prev_token = valid_prev_token
+        self.cur_token_lt = cur_token_lt
         return token
 
     def token(self):
@@ -345,9 +352,21 @@ class Lexer(object):
         if (self.cur_token and
                 self.cur_token.type not in DIVISION_SYNTAX_MARKERS):
             self.cur_token_real = self.cur_token
+            self.cur_token_lt = self._lt_pending
+            self._lt_pending = False
+        elif self._is_line_terminating(self.cur_token):
+            self._lt_pending = True
+
+    def _is_line_terminating(self, token):
+        return token is not None and (
+            token.type == 'LINE_TERMINATOR' or (
+                token.type == 'BLOCK_COMMENT' and
+                PATT_LINE_TERMINATOR_SEQUENCE.search(token.value)))
 
     def _is_prev_token_lt(self):
-        return self.prev_token and self.prev_token.type == 'LINE_TERMINATOR'
+        # comments between the line terminator and the current token do
+        # not count, and a multi-line comment counts as a line terminator
+        return self.cur_token_lt
 
     def _read_regex(self):
         self.lexer.begin('regex')
@@ -390,12 +409,14 @@ class Lexer(object):
 
         # insert semicolon before restricted tokens
         # See section 7.9.1 ECMA262
-        if (self.cur_token is not None
-            and self.cur_token.type == 'LINE_TERMINATOR'
-            and self.prev_token is not None
-            and self.prev_token.type in ['BREAK', 'CONTINUE',
-                                         'RETURN', 'THROW']):
-            return self._create_semi_token(self.cur_token)
+        if (self._is_line_terminating(self.cur_token)
+            and self.cur_token_real is not None
+            and self.cur_token_real.type in ['BREAK', 'CONTINUE',
+                                             'RETURN', 'THROW']):
+            # the keyword is consumed by this; further line terminators
+            # must not produce another semicolon.
+            self.cur_token_real = self._create_semi_token(self.cur_token)
+            return self.cur_token_real
 
         return self.cur_token
 
